@@ -713,7 +713,15 @@ func (g *G) DepositOp(label string, validPct int) *Op {
 	}
 	if g.Bool(label + "/withcaller") {
 		var cl []byte
-		if valid {
+		if valid && g.Pct(label+"/cllong", 5) {
+			// otherwise valid, but the caller is not 32 bytes long (a bare 20-byte address, 33 or 40 bytes)
+			cl = append(g.NonZero32(label+"/cl", by), g.Bytes(label+"/clx", 8)...)
+			cl = cl[:Pick(g, label+"/cllen2", []int{33, 40})]
+			if g.Bool(label + "/clshort") {
+				cl = cl[12:32]
+			}
+			cl[len(cl)-1] |= 1
+		} else if valid {
 			cl = g.NonZero32(label+"/cl", by)
 		} else {
 			cl = g.B32(label+"/cl", by)
